@@ -909,6 +909,7 @@ func runC11(cx *Ctx, r *Report) {
 	}
 	// ND4, ND6 over reachable consensus functions
 	nFn := 0
+	nMut := 0
 	for _, f := range reach.Order {
 		if f.Blocks == nil || !isConsensusCode(cx, f) {
 			continue
@@ -936,6 +937,21 @@ func runC11(cx *Ctx, r *Report) {
 					if d := processLocalMap(x.Map); d != "" {
 						cx.nd6(r, kc, f, reach, x.Pos(), d, nil, mod)
 					}
+				case *ssa.Call:
+					// ND8: arithmetic that overwrites its receiver (LegacyDec.*Mut, big.Int setters)
+					// applied to a value this function did not create: math.Int / LegacyDec / Coin
+					// copies share one *big.Int, so the owner of the value - a keeper-held registry,
+					// a stored parameter, the caller's coin - changes under it for the rest of the
+					// process lifetime
+					if what := processStateCall(x, true); what != "" {
+						cx.nd6(r, kc, f, reach, x.Pos(), what, nil, mod)
+					}
+					if m, recv := inPlaceMutator(x); m != "" {
+						nMut++
+						if !cx.freshNumber(recv, 0, map[ssa.Value]bool{}) {
+							r.violate("ND8-shared-number-mutated", kc.next(mod+"|"+m+"|"+cx.reachingEntry(f)), cx.P.Pos(x.Pos()), "in-place arithmetic "+m+" on "+describeValue(recv)+", a value that "+shortFn(f)+" did not create (a parameter, field, map element or shared pointer): every copy of that number, including process-local state it was read from, silently changes - results then depend on how often this process ran the path; "+reach.Path(f))
+						}
+					}
 				}
 			}
 		}
@@ -943,6 +959,7 @@ func runC11(cx *Ctx, r *Report) {
 	r.Extra["consensus_functions_scanned"] = nFn
 	r.ok("ND4-concurrency", "scan", "", fmt.Sprintf("%d reachable consensus functions scanned for go/select/send/receive", nFn))
 	r.ok("ND6-process-state", "scan", "", fmt.Sprintf("%d reachable consensus functions scanned for stores to package variables and keeper-held maps", nFn))
+	r.ok("ND8-shared-number-mutated", "scan", "", fmt.Sprintf("%d reachable consensus functions scanned; %d receiver-overwriting arithmetic calls, each on a number created in the same function", nFn, nMut))
 	// ND5 over syntax of consensus packages
 	nFloat := 0
 	for _, pk := range cx.P.Pkgs {
@@ -1518,4 +1535,170 @@ func processLivedType(t types.Type) bool {
 func processLivedTypeShallow(n *types.Named) bool {
 	name := n.Obj().Name()
 	return isKeeperStruct(n) || strings.Contains(name, "Keeper") || strings.Contains(name, "AppModule") || strings.Contains(name, "Server") || strings.Contains(name, "Hook")
+}
+
+// inPlaceMutator: the call overwrites its receiver - cosmossdk.io/math's *Mut methods and
+// the setters of math/big numbers. Returns the method and the receiver value.
+func inPlaceMutator(c *ssa.Call) (string, ssa.Value) {
+	cc := c.Common()
+	f := cc.StaticCallee()
+	if f == nil || cc.IsInvoke() || f.Signature.Recv() == nil || len(cc.Args) == 0 {
+		return "", nil
+	}
+	pkg, name := calleeName(cc)
+	short := name[strings.LastIndex(name, ".")+1:]
+	switch pkg {
+	case "cosmossdk.io/math":
+		if strings.HasSuffix(short, "Mut") && short != "BigIntMut" {
+			return name, cc.Args[0]
+		}
+	case "math/big":
+		switch short {
+		case "Add", "Sub", "Mul", "Quo", "Div", "Mod", "Rem", "Exp", "Set", "SetInt64", "SetUint64", "SetString", "SetBytes", "SetBits", "SetBit",
+			"Neg", "Abs", "Lsh", "Rsh", "And", "AndNot", "Or", "Xor", "Not", "Sqrt", "ModInverse", "ModSqrt", "GCD", "QuoRem", "DivMod", "MulRange", "Binomial",
+			"SetFrac", "SetFrac64", "SetInt", "SetRat", "SetFloat64", "Inv", "SetPrec", "SetMode", "SetInf", "Copy":
+			return "big." + name, cc.Args[0]
+		}
+	}
+	return "", nil
+}
+
+// freshNumber: the value was created by the function that uses it (a constructor or
+// arithmetic result, new(T), a clone), possibly through further in-place steps on it.
+func (cx *Ctx) freshNumber(v ssa.Value, depth int, seen map[ssa.Value]bool) bool {
+	if depth > 10 || seen[v] {
+		return depth <= 10
+	}
+	seen[v] = true
+	switch x := v.(type) {
+	case *ssa.Alloc:
+		if x.Referrers() == nil {
+			return true
+		}
+		for _, r := range *x.Referrers() {
+			if st, ok := r.(*ssa.Store); ok && st.Addr == x && !cx.freshNumber(st.Val, depth+1, seen) {
+				return false
+			}
+		}
+		return true
+	case *ssa.Const:
+		return true
+	case *ssa.Call:
+		if m, recv := inPlaceMutator(x); m != "" {
+			return cx.freshNumber(recv, depth+1, seen)
+		}
+		_, name := calleeName(x.Common())
+		if strings.HasSuffix(name, "BigIntMut") {
+			return false // hands out the number's own *big.Int
+		}
+		return true
+	case *ssa.Extract:
+		return true
+	case *ssa.Phi:
+		for _, e := range x.Edges {
+			if !cx.freshNumber(e, depth+1, seen) {
+				return false
+			}
+		}
+		return true
+	case *ssa.UnOp:
+		if x.Op == token.MUL {
+			if a, ok := x.X.(*ssa.Alloc); ok {
+				return cx.freshNumber(a, depth+1, seen)
+			}
+			return false
+		}
+		return true
+	case *ssa.MakeInterface:
+		return cx.freshNumber(x.X, depth+1, seen)
+	case *ssa.ChangeType:
+		return cx.freshNumber(x.X, depth+1, seen)
+	case *ssa.Convert:
+		return cx.freshNumber(x.X, depth+1, seen)
+	case *ssa.Parameter:
+		// fresh when every static caller passes a fresh value
+		fn := x.Parent()
+		idx := -1
+		for i, p := range fn.Params {
+			if p == x {
+				idx = i
+			}
+		}
+		callers := cx.CallersOf(fn)
+		if idx < 0 || len(callers) == 0 {
+			return false
+		}
+		for _, cs := range callers {
+			cc := cs.Site.Common()
+			if cc.IsInvoke() || cc.StaticCallee() != fn || idx >= len(cc.Args) || !cx.freshNumber(cc.Args[idx], depth+1, seen) {
+				return false
+			}
+		}
+		return true
+	}
+	return false
+}
+
+// processStateCall: a call that writes (or, with writesOnly=false, also one that reads)
+// process-local shared state through the sync / sync/atomic API: a sync.Map kept in a
+// keeper or package variable, an atomic counter.
+func processStateCall(c *ssa.Call, writesOnly bool) string {
+	cc := c.Common()
+	if cc.IsInvoke() || cc.StaticCallee() == nil {
+		return ""
+	}
+	pkg, name := calleeName(cc)
+	switch pkg {
+	case "sync":
+		switch name {
+		case "Map.Store", "Map.LoadOrStore", "Map.Delete", "Map.LoadAndDelete", "Map.Swap", "Map.CompareAndSwap", "Map.CompareAndDelete", "Map.Clear", "Pool.Put":
+			return "sync." + name
+		case "Map.Load", "Map.Range", "Pool.Get":
+			if !writesOnly {
+				return "sync." + name
+			}
+		}
+	case "sync/atomic":
+		if strings.Contains(name, "Store") || strings.Contains(name, "Add") || strings.Contains(name, "Swap") || strings.Contains(name, "CompareAndSwap") || strings.Contains(name, "Or") || strings.Contains(name, "And") {
+			return "atomic." + name
+		}
+		if !writesOnly && strings.Contains(name, "Load") {
+			return "atomic." + name
+		}
+	}
+	return ""
+}
+
+// processStateUses: every use (read or write) of process-local state in the functions
+// reachable from roots: package variables of irismod that are written at run time somewhere,
+// maps held in keeper fields or package variables, sync.Map / atomic values.
+func (cx *Ctx) processStateUses(roots []*ssa.Function) []string {
+	var out []string
+	for _, f := range cx.Reachable(roots, nil).Order {
+		if f.Blocks == nil || !isIrismodFunc(f) || cx.isDoubleFunc(f) {
+			continue
+		}
+		for _, b := range f.Blocks {
+			for _, ins := range b.Instrs {
+				switch x := ins.(type) {
+				case *ssa.MapUpdate:
+					if d := processLocalMap(x.Map); d != "" {
+						out = append(out, cx.P.Pos(x.Pos())+" write to "+d+" in "+shortFn(f))
+					}
+				case *ssa.Lookup:
+					if _, isMap := x.X.Type().Underlying().(*types.Map); isMap {
+						if d := processLocalMap(x.X); d != "" {
+							out = append(out, cx.P.Pos(x.Pos())+" lookup in "+d+" in "+shortFn(f))
+						}
+					}
+				case *ssa.Call:
+					if w := processStateCall(x, false); w != "" {
+						out = append(out, cx.P.Pos(x.Pos())+" "+w+" in "+shortFn(f))
+					}
+				}
+			}
+		}
+	}
+	sort.Strings(out)
+	return out
 }
